@@ -1,6 +1,11 @@
 """C15 -- reaction-network store stays consistent under every history of edits (sidecar contracts)."""
 from pyvc.rt import *  # noqa: F401,F403
 
+try:
+    from synkit.CRN.Hypergraph.rxn import RXNSide
+except Exception:      # prover process: the repository is not importable (and not needed)
+    RXNSide = None
+
 PROPERTY = "C15"
 HG = "synkit/CRN/Hypergraph/hypergraph.py"
 
@@ -41,13 +46,14 @@ def owned(H):
         and H.edges[k1].reactants is not H.edges[k2].reactants
         and H.edges[k1].reactants is not H.edges[k2].products
         and H.edges[k1].products is not H.edges[k2].reactants
-        and H.edges[k1].products is not H.edges[k2].products))
+        and H.edges[k1].products is not H.edges[k2].products)) \
+        and forall(H.edges, lambda k: H.edges[k].reactants is not H.edges[k].products)
 
 
 def wf(H, allow_empty=False):
     """representation invariant of CRNHyperGraph (DESIGN section 5, C15)"""
     return (
-        forall(H.edges, lambda k: H.edges[k].id == k)
+        forall(H.edges, lambda k: H.edges[k].id == k and truthy(H.edges[k].rule))
         and forall(H.edges, lambda k: forall(H.edges[k].reactants.data, lambda s: H.edges[k].reactants.data[s] > 0))
         and forall(H.edges, lambda k: forall(H.edges[k].products.data, lambda s: H.edges[k].products.data[s] > 0))
         and (allow_empty or forall(H.edges, lambda k: truthy(H.edges[k].reactants.data) or truthy(H.edges[k].products.data)))
@@ -72,15 +78,107 @@ def out_minus(H, s, eid):
     return H.species_to_out_edges.get(s, set()) - {eid}
 
 
+RX = "synkit/CRN/Hypergraph/rxn.py"
+HE = "synkit/CRN/Hypergraph/hyperedge.py"
+
+
+def norm_of(obj, out):
+    """out is the normalised stoichiometry of the mapping obj: positive entries only, same counts"""
+    return forall('str', lambda s: (s in out) == (s in obj and obj[s] > 0)) \
+        and forall(out, lambda s: out[s] == obj[s])
+
+
+def side_ok(side):
+    return forall(side.data, lambda s: side.data[s] > 0)
+
+
+def support(e):
+    return keys(e.reactants.data) | keys(e.products.data)
+
+
+def rest_nonempty(H, k, sp):
+    """reaction k mentions some species other than sp"""
+    return exists('str', lambda s: s != sp and (s in H.edges[k].reactants.data or s in H.edges[k].products.data))
+
+
+def sides_disjoint(A, B):
+    """no edge or side object is shared between the two networks"""
+    return forall((A.edges, B.edges), lambda k1, k2: (
+        A.edges[k1] is not B.edges[k2]
+        and A.edges[k1].reactants is not B.edges[k2].reactants
+        and A.edges[k1].reactants is not B.edges[k2].products
+        and A.edges[k1].products is not B.edges[k2].reactants
+        and A.edges[k1].products is not B.edges[k2].products))
+
+
+def same_rxn(e1, e2):
+    return e1.rule == e2.rule and e1.reactants.data == e2.reactants.data and e1.products.data == e2.products.data
+
+
+def side_empty(H, k):
+    return not truthy(H.edges[k].reactants.data) and not truthy(H.edges[k].products.data)
+
+
+def not_in_use(H, side):
+    """the side object is not (yet) part of a stored reaction"""
+    return forall(H.edges, lambda k: H.edges[k].reactants is not side and H.edges[k].products is not side)
+
+
+def implies_side(x, f):
+    """f() is required only when x is an RXNSide object (mappings are normalised into fresh sides)"""
+    return f() if isinstance(x, RXNSide) else True
+
+
+def empty_input(x):
+    if isinstance(x, RXNSide):
+        return not truthy(x.data)
+    return forall(x, lambda s: x[s] <= 0)
+
+
+def stoich_is(side, x):
+    """the stored side is the caller's RXNSide itself, or the normalisation of the caller's mapping"""
+    if isinstance(x, RXNSide):
+        return side is x
+    return norm_of(x, side.data)
+
+
+def same_edges(H, old_edges, old_R, old_P, old_rule):
+    """whole-view frame: every previously stored reaction is still there, same object, same stoichiometry"""
+    return forall(old_edges, lambda k: k in H.edges and H.edges[k] is old_edges[k])
+
+
 FUNCTIONS = {
+    RX + "::RXNSide._normalize_any": {
+        "params": {"obj": "dict[str,int]"},
+        "returns": "dict[str,int]",
+        "ensures": ["norm_of(obj, result)"],
+        "loops": {1: {"vars": {"out": "dict[str,int]"},
+                      "inv": ["forall('str', lambda s: (s in out) == (s in done and obj[s] > 0))",
+                              "forall(out, lambda s: out[s] == obj[s])"]}},
+    },
+    RX + "::RXNSide.copy": {
+        "params": {},
+        "returns": "obj:RXNSide",
+        "requires": ["side_ok(self)"],
+        "modifies": [],
+        "ensures": ["is_fresh(result)", "result.data == self.data", "side_ok(result)"],
+    },
+    RX + "::RXNSide.from_any": {
+        "params": {"obj": "dict[str,int]"},
+        "returns": "obj:RXNSide",
+        "modifies": [],
+        "ensures": ["is_fresh(result)", "norm_of(obj, result.data)"],
+    },
     HG + "::CRNHyperGraph._next_edge_id_for_rule": {
         "params": {"rule": "str"},
         "returns": "str",
         "modifies": ["self._rule_counters"],
         "ensures": [
-            "self._rule_counters[rule] == old(self._rule_counters.get(rule, 0)) + 1",
+            "self._rule_counters[rule] >= old(self._rule_counters.get(rule, 0)) + 1",
             "forall('str', lambda r: implies(r != rule, (r in self._rule_counters) == (r in old(self._rule_counters))))",
+            "result not in self.edges",          # ids handed out are free (finding 1 on the pinned tree)
         ],
+        "loops": {1: {"inv": ["cnt >= old(self._rule_counters.get(rule, 0)) + 1"]}},
     },
     HG + "::CRNHyperGraph.assign_mol": {
         "params": {"species": "str", "mol": "any"},
@@ -145,6 +243,142 @@ FUNCTIONS = {
                     "   and self.species_to_out_edges[s] == old(out_minus(self, s, edge_id))"
                     "   and (s in self.species_to_mol) == (s in old(self.species_to_mol))"
                     "   and self.species_to_mol.get(s) == old(self.species_to_mol.get(s))))",
+                ]},
+        },
+    },
+    HG + "::CRNHyperGraph.add_rxn": {
+        "params": {"reactant_side": ["obj:RXNSide", "dict[str,int]"], "product_side": ["obj:RXNSide", "dict[str,int]"],
+                   "rule": "opt[str]", "edge_id": "opt[str]"},
+        "returns": "obj:HyperEdge",
+        "requires": ["wf(self)", "reactant_side is not product_side",
+                     "implies_side(reactant_side, lambda: side_ok(reactant_side) and not_in_use(self, reactant_side))",
+                     "implies_side(product_side, lambda: side_ok(product_side) and not_in_use(self, product_side))"],
+        "raises": {"KeyError": "edge_id is not None and edge_id in self.edges",
+                   "ValueError": "not (edge_id is not None and edge_id in self.edges) and "
+                                 "empty_input(reactant_side) and empty_input(product_side)"},
+        "modifies": ["self.edges", "self.species", "self.species_to_in_edges", "self.species_to_out_edges",
+                     "self._rule_counters"],
+        "ensures": [
+            "wf(self)",
+            "result.id not in old(self.edges)",
+            "keys(self.edges) == old(keys(self.edges)) | {result.id}",
+            "self.edges[result.id] is result",
+            "implies(edge_id is not None, result.id == edge_id)",
+            "forall(old(self.edges), lambda k: self.edges[k] is old(self.edges)[k])",
+            "stoich_is(result.reactants, reactant_side)",
+            "stoich_is(result.products, product_side)",
+            "result.rule == (rule if truthy(rule) else 'r')",
+            "self.species == old(self.species) | support(result)",
+        ],
+        "loops": {
+            1: {"modifies": ["self.species", "self.species_to_in_edges", "self.species_to_out_edges"],
+                "inv": ["self.species == old(self.species) | done",
+                        "keys(self.species_to_in_edges) == old(keys(self.species_to_in_edges)) | done",
+                        "keys(self.species_to_out_edges) == old(keys(self.species_to_out_edges)) | done",
+                        "forall('str', lambda s: self.species_to_in_edges.get(s, set()) == old(self.species_to_in_edges.get(s, set())))",
+                        "forall('str', lambda s: self.species_to_out_edges.get(s, set()) == old(self.species_to_out_edges.get(s, set())))"]},
+            2: {"modifies": ["self.species_to_out_edges"],
+                "inv": ["keys(self.species_to_out_edges) == at_entry(keys(self.species_to_out_edges))",
+                        "forall('str', lambda s: self.species_to_out_edges.get(s, set()) == "
+                        " (at_entry(self.species_to_out_edges.get(s, set())) | {edge_id} if s in done else at_entry(self.species_to_out_edges.get(s, set()))))"]},
+            3: {"modifies": ["self.species_to_in_edges"],
+                "inv": ["keys(self.species_to_in_edges) == at_entry(keys(self.species_to_in_edges))",
+                        "forall('str', lambda s: self.species_to_in_edges.get(s, set()) == "
+                        " (at_entry(self.species_to_in_edges.get(s, set())) | {edge_id} if s in done else at_entry(self.species_to_in_edges.get(s, set()))))"]},
+        },
+    },
+    HG + "::CRNHyperGraph.remove_species": {
+        "params": {"species": "str", "prune_orphans": "bool"},
+        "vars": {"to_remove_edges": "set[str]"},
+        "requires": ["wf(self)"],
+        "raises": {"KeyError": "species not in self.species"},
+        "modifies": ["self.edges", "self.species", "self.species_to_in_edges", "self.species_to_out_edges",
+                     "self.species_to_mol", "RXNSide.data"],
+        "ensures": [
+            "wf(self)",
+            # a reaction survives iff something other than `species` is left in it
+            "forall(old(self.edges), lambda k: (k in self.edges) == old(rest_nonempty(self, k, species)))",
+            "forall(self.edges, lambda k: k in old(self.edges) and self.edges[k] is old(self.edges)[k])",
+            "forall(self.edges, lambda k: forall('str', lambda s: "
+            "   R(self, k, s) == (0 if s == species else old(R(self, k, s))) and "
+            "   P(self, k, s) == (0 if s == species else old(P(self, k, s)))))",
+            "(species in self.species) == (not prune_orphans)",
+            "self.species <= old(self.species)",
+            "forall(self.species, lambda s: self.species_to_mol.get(s) == old(self.species_to_mol.get(s)))",
+        ],
+        "loops": {
+            1: {"modifies": ["self.species_to_in_edges", "RXNSide.data"],
+                "inv": [
+                    "forall(self.edges, lambda k: forall('str', lambda s: "
+                    "  occurs_p(self, k, s) == (old(occurs_p(self, k, s)) and not (k in done and s == species))"
+                    "  and implies(occurs_p(self, k, s), self.edges[k].products.data[s] == old(self.edges[k].products.data[s]))"
+                    "  and occurs_r(self, k, s) == old(occurs_r(self, k, s))"
+                    "  and implies(occurs_r(self, k, s), self.edges[k].reactants.data[s] == old(self.edges[k].reactants.data[s]))))",
+                    "self.species_to_in_edges.get(species, set()) == old(self.species_to_in_edges.get(species, set())) - done",
+                    "keys(self.species_to_in_edges) == old(keys(self.species_to_in_edges))",
+                    "forall('str', lambda s: implies(s != species, self.species_to_in_edges.get(s, set()) == old(self.species_to_in_edges.get(s, set()))))",
+                    "forall('str', lambda k: (k in to_remove_edges) == (k in done and k in self.edges and side_empty(self, k)))",
+                ]},
+            2: {"modifies": ["self.species_to_out_edges", "RXNSide.data"],
+                "inv": [
+                    "forall(self.edges, lambda k: forall('str', lambda s: "
+                    "  occurs_r(self, k, s) == (old(occurs_r(self, k, s)) and not (k in done and s == species))"
+                    "  and implies(occurs_r(self, k, s), self.edges[k].reactants.data[s] == old(self.edges[k].reactants.data[s]))"
+                    "  and occurs_p(self, k, s) == at_entry(occurs_p(self, k, s))"
+                    "  and implies(occurs_p(self, k, s), self.edges[k].products.data[s] == old(self.edges[k].products.data[s]))))",
+                    "self.species_to_out_edges.get(species, set()) == old(self.species_to_out_edges.get(species, set())) - done",
+                    "keys(self.species_to_out_edges) == old(keys(self.species_to_out_edges))",
+                    "forall('str', lambda s: implies(s != species, self.species_to_out_edges.get(s, set()) == old(self.species_to_out_edges.get(s, set()))))",
+                    "forall('str', lambda k: (k in to_remove_edges) == "
+                    "  ((k in old(self.species_to_in_edges.get(species, set())) or k in done) and k in self.edges and side_empty(self, k)))",
+                ]},
+            3: {"modifies": ["self.edges", "self.species", "self.species_to_in_edges", "self.species_to_out_edges",
+                             "self.species_to_mol"],
+                "inv": [
+                    "wf(self, True)",
+                    "keys(self.edges) == at_entry(keys(self.edges)) - done",
+                    "forall(self.edges, lambda k: self.edges[k] is old(self.edges)[k])",
+                    "species in self.species",
+                    "self.species <= old(self.species)",
+                    "not truthy(self.species_to_in_edges.get(species, set())) and not truthy(self.species_to_out_edges.get(species, set()))",
+                    "forall(self.species, lambda s: self.species_to_mol.get(s) == old(self.species_to_mol.get(s)))",
+                ]},
+        },
+    },
+    HG + "::CRNHyperGraph.merge": {
+        "params": {"other": "obj:CRNHyperGraph", "prefix_edges": "bool"},
+        "vars": {"wit": "dict[str,str]", "wit_inv": "dict[str,str]"},
+        "requires": ["wf(self)", "wf(other)", "other is not self", "sides_disjoint(self, other)"],
+        "modifies": ["self.edges", "self.species", "self.species_to_in_edges", "self.species_to_out_edges",
+                     "self._rule_counters"],
+        "ensures": [
+            "wf(self)",
+            "forall(old(self.edges), lambda k: k in self.edges and self.edges[k] is old(self.edges)[k])",
+            # one new reaction per reaction of `other`, same rule and stoichiometry ...
+            "forall(other.edges, lambda k: exists_w(self.edges, lambda j: j not in old(self.edges) "
+            "       and same_rxn(self.edges[j], other.edges[k]), 'wit[k]'))",
+            # ... and nothing else
+            "forall(self.edges, lambda j: j in old(self.edges) or exists_w(other.edges, lambda k: "
+            "       same_rxn(self.edges[j], other.edges[k]), 'wit_inv[j]'))",
+            # ownership: the merged reactions do not share mutable state with `other` (finding 2 on the pinned tree)
+            "sides_disjoint(self, other)",
+        ],
+        "ghost_ensures": [
+            "forall(other.edges, lambda k: wit_inv[wit[k]] == k)",
+        ],
+        "loops": {
+            1: {"ghost_init": ["wit = {}", "wit_inv = {}"],
+                "ghost_step": ["wit[e.id] = new_id", "wit_inv[new_id] = e.id"],
+                "inv": [
+                    "wf(self)",
+                    "forall(old(self.edges), lambda k: k in self.edges and self.edges[k] is old(self.edges)[k])",
+                    "forall(done, lambda k: k in wit and wit[k] in self.edges and wit[k] not in old(self.edges))",
+                    "forall(done, lambda k: same_rxn(self.edges[wit[k]], other.edges[k]))",
+                    "forall(done, lambda k: wit_inv[wit[k]] == k)",
+                    "forall(self.edges, lambda j: j in old(self.edges) or (j in wit_inv and wit_inv[j] in done "
+                    "       and wit[wit_inv[j]] == j))",
+                    "forall(self.edges, lambda j: j in old(self.edges) or (is_fresh(self.edges[j]) "
+                    "       and is_fresh(self.edges[j].reactants) and is_fresh(self.edges[j].products)))",
                 ]},
         },
     },
